@@ -103,9 +103,93 @@ def run_one(req, results):
     return out
 
 
+def make_netcdf(spec):
+    """write a one-variable NetCDF file: {"path", "data", "mask" or None, "kind": f|i}"""
+    from netCDF4 import Dataset
+    n = len(spec['data'])
+    with Dataset(spec['path'], 'w') as ds:
+        ds.createDimension('x', n)
+        x = ds.createVariable('x', 'f8', ('x',))
+        x[:] = numpy.arange(n)
+        v = ds.createVariable('v', 'f8' if spec['kind'] == 'f' else 'i8', ('x',), fill_value=(1e20 if spec['kind'] == 'f' else 999999))
+        arr = numpy.ma.array(spec['data'], dtype=float if spec['kind'] == 'f' else int, mask=spec['mask'] if spec['mask'] is not None else False)
+        v[:] = arr
+
+
+def netcdf_roundtrip(req):
+    """write results with the real EEMSWrite (real netCDF4) and read them back with the real EEMSRead"""
+    import os
+    from netCDF4 import Dataset
+    from mpilot.program import Program
+    rec = req['netcdf_roundtrip']
+    shape = tuple(rec['shape'])
+    rank = len(shape)
+    base = os.path.join(req['scratch'], 'c18rt-%d' % os.getpid())
+    tmpl, out = base + '-t.nc', base + '-o.nc'
+    dims = ['time', 'y', 'x'][-rank:]
+    rng = numpy.random.RandomState(7)
+    with Dataset(tmpl, 'w') as ds:
+        for dname, size in zip(dims, shape):
+            ds.createDimension(dname, size)
+            dv = ds.createVariable(dname, 'f8', (dname,))
+            dv[:] = numpy.linspace(10, 20, size)
+            dv.units = 'u_' + dname
+        tv = ds.createVariable('template', 'f4', tuple(dims))
+        tv[:] = numpy.zeros(shape)
+    import mpvinputs
+    mpvinputs.TABLE.clear()
+    names = ['R%d' % i for i in range(rec['nres'])]
+    n = int(numpy.prod(shape))
+    for i, nm in enumerate(names):
+        vals = (rng.rand(n) * 20 - 10) if rec['dkind'] == 'f' else rng.randint(-50, 50, n)
+        mask = numpy.zeros(n, dtype=bool)
+        if rec['maskpat'] in (1, 3) and i == 0:
+            mask[0] = True
+        if rec['maskpat'] in (2, 3) and i == len(names) - 1:
+            mask[-1] = True
+        a = numpy.ma.array(vals.reshape(shape), mask=mask.reshape(shape), dtype=float if rec['dkind'] == 'f' else int)
+        a.soften_mask()
+        mpvinputs.TABLE[nm] = a
+    libs = ('mpilot.libraries.eems.basic', 'mpilot.libraries.eems.netcdf', 'mpilot.libraries.eems.fuzzy', 'mpvinputs')
+    src = ''.join('%s = SymInput(Name = "%s")\n' % (nm, nm) for nm in names)
+    src += 'W = EEMSWrite(OutFileName = "%s", OutFieldNames = [%s], DimensionFileName = "%s", DimensionFieldName = template)\n' % (out, ', '.join(names), tmpl)
+    facts = []
+    try:
+        p = Program.from_source(src, libraries=libs)
+        p.run()
+    except Exception as e:
+        return {'facts': [('write: the real EEMSWrite runs (%s: %s)' % (type(e).__name__, str(e)[:160]), False)]}
+    union = numpy.zeros(shape, dtype=bool)
+    for nm in names:
+        union |= numpy.ma.getmaskarray(mpvinputs.TABLE[nm])
+    with Dataset(out) as ds, Dataset(tmpl) as ts:
+        for dname in dims:
+            ok = dname in ds.variables and numpy.array_equal(ds[dname][:], ts[dname][:]) and getattr(ds[dname], 'units', None) == 'u_' + dname
+            facts.append(('dimensions: variable %s and its coordinate values/attributes are copied unchanged' % dname, bool(ok)))
+    for nm in names:
+        rsrc = 'B = EEMSRead(InFileName = "%s", InFieldName = %s, DataType = "%s")\n' % (out, nm, 'Float' if rec['dkind'] == 'f' else 'Integer')
+        try:
+            q = Program.from_source(rsrc, libraries=libs)
+            q.run()
+            b = q.commands['B']._result
+        except Exception as e:
+            facts.append(('read-back: %s can be read back (%s: %s)' % (nm, type(e).__name__, str(e)[:120]), False))
+            continue
+        a = mpvinputs.TABLE[nm]
+        facts.append(('read-back: %s has the written shape %s (got %s)' % (nm, list(shape), list(b.shape)), tuple(b.shape) == shape))
+        facts.append(('read-back: %s has the written element kind' % nm, b.dtype.kind in ('f',) if rec['dkind'] == 'f' else b.dtype.kind in ('i', 'u')))
+        if tuple(b.shape) == shape:
+            bm = numpy.ma.getmaskarray(b)
+            facts.append(('read-back: %s is missing exactly where any written result was missing' % nm, bool((bm == union).all())))
+            facts.append(('read-back: %s has the written values at non-missing cells' % nm, bool(numpy.ma.allclose(numpy.ma.array(a.data, mask=union), numpy.ma.array(b.data, mask=union)))))
+    return {'facts': facts}
+
+
 def run_program(req):
     """{"program": source, "inputs": {name: arrspec}, "libraries": [...]} -> per-command result dumps"""
     import mpvinputs
+    if req.get('netcdf'):
+        make_netcdf(req['netcdf'])
     from mpilot.program import Program
     mpvinputs.TABLE.clear()
     for name, spec in req['inputs'].items():
@@ -128,6 +212,14 @@ def run_program(req):
 def main():
     for line in sys.stdin:
         req = json.loads(line)
+        if 'netcdf_roundtrip' in req:
+            try:
+                out = netcdf_roundtrip(req)
+            except Exception as e:
+                out = {'facts': [('the round trip harness ran (%s: %s)' % (type(e).__name__, str(e)[:200]), False)]}
+            sys.stdout.write(json.dumps(out) + '\n')
+            sys.stdout.flush()
+            continue
         if 'program' in req:
             try:
                 out = run_program(req)
